@@ -1092,7 +1092,7 @@ func c12CrossTalk(w *core.W, j int) {
 	// every fourth round the server reads and writes through user-supplied decorators (pass-through,
 	// counting): the same exchanges, the same oracle
 	var decoReads, decoWrites atomic.Int64
-	if j%4 == 3 {
+	if (j/3)%4 == 3 { // (chosen independently of the transport: j%4 would never meet udp)
 		srv.DecorateReader = func(r dns.Reader) dns.Reader { return c12Reader{r, &decoReads} }
 		srv.DecorateWriter = func(wr dns.Writer) dns.Writer { return c12Writer{wr, &decoWrites} }
 	}
@@ -1358,7 +1358,8 @@ func c12CrossTalk(w *core.W, j int) {
 	for _, s := range sents {
 		sentBy[s.key] = s
 	}
-	if j%4 == 3 {
+	if (j/3)%4 == 3 {
+		w.Count("decorated_reads_"+network, int(decoReads.Load()))
 		w.Count("decorated_reads", int(decoReads.Load()))
 		w.Count("decorated_writes", int(decoWrites.Load()))
 		if int(decoWrites.Load()) < len(log.handled) || int(decoReads.Load()) < len(log.handled) {
